@@ -268,6 +268,9 @@ func runC19(c *Ctx) {
 		}
 		maxLen := 0
 		for r := 0; r < n; r++ {
+			if r%64 == 0 {
+				c.Beat()
+			}
 			ctr := distinct.NewCounter[int](cf.size)
 			if cf.reuse == 1 {
 				for v := 0; v < 6*cf.size; v++ {
